@@ -150,6 +150,27 @@ func propDefs() map[string]propDef {
 			"the goroutine that opens the FIFO is joined at the receive from the channel it closes (its writes to file/err are visible there: Go memory model)"},
 		Explain: "loop invariant of Ingest's read loop over the assumed contract of bufio.Reader.ReadString: the callbacks made so far are exactly the records returned so far, in order, each with exactly the record's bytes (cb[i].line == rdstream(r, i)), the same context and callback value, and all returned nil; exits only by returning the reader's error (so never nil, end-of-stream surfaces as an error, the unterminated tail is never delivered because the error check precedes the callback) or the first non-nil callback error unchanged (identity), after which no callback is made",
 	}
+	m["C15"] = propDef{ID: "C15", Level: "proof",
+		Units: []unit{u("processors/auditd.parseAuditLogs"), u("processors/auditd.(*reassemblerCB).ReassemblyComplete"),
+			u("processors/auditd.(*Auditd).Read", `^ensures:`, `^selects:`, `^pre:`, `^inv-`, `^chaninv:`, safetyRe), u("processors/auditd.(*Auditd).Read$1"),
+			u("processors/auditd/sessiontracker.(*sessionTracker).RemoteLogin", `^ensures:(err|invalid|inv)`), u("processors/auditd/sessiontracker.(*sessionTracker).AuditdEvent", `^ensures:(err|badpid|inv)`)},
+		Assume: []string{"grouping of interleaved records into one event happens inside go-libaudit's Reassembler (dependency, not decided)",
+			"that select eventually takes a ready error arm is fairness of the Go runtime (not decided)",
+			"the message text of parseAuditLogsError is built with fmt.Sprintf (opaque here): that it contains the line is not proved, that the error wraps the parser's error and that the offending line is the last one received is"},
+		Explain: "loop invariant of parseAuditLogs over ghost traces of received lines and pushed messages: every non-empty line received so far has been parsed and pushed exactly once (a bijection between pushes and non-empty lines), in order, and the function ends only on cancellation or with a parseAuditLogsError wrapping the parser's error for the last received line; ReassemblyComplete hands the coalesced event to the correlator exactly once unless coalescing fails or the event predates the threshold, and if coalescing or the correlator fails the 1-slot error channel is non-empty afterwards (the non-blocking send cannot lose the first error); Read has receive arms for the parser's result, the reassembler's errors and the logins, returns a non-nil error on each failure arm (a RemoteLogin error cannot be skipped: the loop invariant TrackerInv is only re-established when it returns nil), and every error sent on the internal channels is non-nil (channel message invariant checked at each send)",
+	}
+	blk := []string{`^blocks:`}
+	m["C13"] = propDef{ID: "C13", Level: "other",
+		Units: []unit{u("ingesters/namedpipe.(*NamedPipeIngester).Ingest", `^blocks:`, `^ensures:(stop|noread)`), u("ingesters/auditlog.(*AuditLogIngester).Process", append(blk, `^ensures:`)...),
+			u("ingesters/auditlog.(*AuditLogIngester).Ingest", blk...), u("ingesters/syslog.(*SyslogIngester).Ingest", blk...), u("ingesters/syslog.(*SyslogIngester).Process", blk...),
+			u("processors/sshd.(*SshdProcessorer).ProcessSshdLogEntry", blk...), u("processors/sshd.ProcessEntry", blk...),
+			u("processors/sshd.processAcceptPublicKeyEntry", append(blk, `^ensures:cancel`)...), u("processors/sshd.processAcceptedPasswordEntry", append(blk, `^ensures:cancel`)...),
+			u("processors/auditd.(*Auditd).Read", blk...), u("processors/auditd.parseAuditLogs", blk...), u("processors/auditd.maintainReassemblerLoop", blk...),
+			u(st+"(*sessionTracker).RemoteLogin", blk...), u(st+"(*sessionTracker).AuditdEvent", blk...), u(st+"(*sessionTracker).DeleteUsersWithoutLoginsBefore", blk...), u(st+"(*sessionTracker).DeleteRemoteUserLoginsBefore", blk...)},
+		Assume: []string{"closing the FIFO from the goroutine that waits on ctx.Done() makes the blocked ReadString return (OS behaviour)", "os.OpenFile on a FIFO without a writer is abandoned (the select returns on ctx.Done()), not interrupted",
+			"bounded time itself, scheduling and the Go runtime are not decided: what is proved is that no worker can sit in a blocking operation that cancellation cannot end"},
+		Explain: "blocking-effect obligations decided structurally on the symbolic execution of every worker: each potentially blocking operation (channel send/receive, select without default, call to a function that may block) is a select with a <-ctx.Done() arm, a send on a channel made by the function with provable room (SMT obligation), a call to a callee verified cancellable, or one of the two declared external blocking calls with their wake-up mechanism (os.OpenFile abandoned via the ready select, ReadString ended by file.Close from the ctx.Done goroutine); plus 'no callback after the loop has ended'",
+	}
 	m["C14"] = propDef{ID: "C14", Level: "proof",
 		Units: trk(
 			nil,
